@@ -21,6 +21,10 @@ def gen_cases(ctx, n_simple, n_hard):
     cases += [mapcase.gen_shard_case(ctx.rng) for _ in range(ctx.scale(8, 80))]
     # delimited text files (comma / semicolon / tab) whose cells are words that readers like to interpret (NA, None, NULL, 0071, 1.50, true)
     cases += [mapcase.gen_words_case(ctx.rng) for _ in range(ctx.scale(12, 100))]
+    # a few runs with two worker processes (the library's multi-process path)
+    for c in cases:
+        if ctx.rng.random() < 0.05:
+            c['cfg']['procs'] = 2
     return cases
 
 
@@ -47,10 +51,28 @@ def features(case):
     return f
 
 
+def style_fn(c):
+    """spelling of the mapping file: cases that touch no recorded finding are written, by a hash of the document, in YARRRML (when expressible),
+    in the legacy RML vocabulary, or with shared subject-map resources and expanded constants; the others in the canonical spelling"""
+    import hashlib
+    if c.get('layout') or family.triggers(c):
+        return None
+    h = int(hashlib.md5(json.dumps(c['doc'], sort_keys=True).encode()).hexdigest(), 16) % 6
+    if h == 1 and mapcase.yarrrml_ok(c):
+        return mapcase.Style(vocab='yarrrml')
+    if h == 2:
+        return mapcase.Style(vocab='legacy')
+    if h == 3:
+        st = mapcase.Style(shortcut=False)
+        st.share_sm = {}
+        return st
+    return None
+
+
 def run(ctx, res):
     res.rule = ('generated mappings (1-3 triples maps, 0-3 predicate-object maps with 1-2 predicate/object/graph maps each, constant / template / '
                 'reference term maps of every term type, language tags and datatypes incl. maps, classes, subject-map graphs, referencing object maps) '
-                'over CSV tables of 0-6 rows with nulls and a pool of nasty strings; each case through morph_kgc.materialize_set, the extracted Engine '
+                'over CSV tables of 0-6 rows with nulls and a pool of nasty strings; half of them in another spelling (YARRRML, legacy vocabulary, shared subject-map resources), a few with two worker processes; each case through morph_kgc.materialize_set, the extracted Engine '
                 'model and the extracted Spec; distinct = distinct abstract case; non-trivial = at least one statement prescribed')
     known = set(ctx.known)
     batch = family.Batch(ctx)
@@ -60,7 +82,7 @@ def run(ctx, res):
     seen_f = {}
     for chunk_start in range(0, len(cases), 400):
         chunk = cases[chunk_start:chunk_start + 400]
-        for rec in batch.run(chunk):
+        for rec in batch.run(chunk, style_fn=style_fn):
             tag = family.judge(res, rec, known)
             for ft in features(rec['case']):
                 seen_f[ft] = seen_f.get(ft, 0) + 1
@@ -77,6 +99,6 @@ def run(ctx, res):
 def replay(ctx, res, payload):
     case = payload.get('case')
     batch = family.Batch(ctx)
-    rec = batch.run([case])[0]
+    rec = batch.run([case], style_fn=style_fn)[0]
     print('replay: impl=%s\n model=%s\n spec=%s' % (str(rec['impl'])[:1500], str(rec['model'])[:1500], str(rec['spec'])[:1500]))
     family.judge(res, rec, set(ctx.known))
